@@ -209,7 +209,7 @@ impl Layer for Diff {
 
 pub fn strategy(ctx: &Ctx) -> BoxedStrategy<Case> {
     let raw: Vec<String> = RAW.iter().map(|s| s.to_string()).collect();
-    let cfg = GenCfg { depth: ctx.tier.pick(3, 4), max_list: 3, nfuncs: 2, raw, raw_weight: 10, pipes: false, substs: true, evals: true, jumps: true, exits: true, probes: true };
+    let cfg = GenCfg { depth: ctx.tier.pick(3, 4), max_list: 3, nfuncs: 2, raw, raw_weight: 10, pipes: false, substs: true, evals: true, jumps: true, exits: true, probes: true, no_while: false };
     let init = proptest::collection::vec(
         proptest::sample::select(vec!["trap 'echo \"T$?\"' EXIT", "trap 'echo \"T$?\"' EXIT", "trap 'echo \"T$?\"' EXIT", "set -u", "set -e", "trap 'echo \"U$?\"' EXIT", "trap 'echo \"T$?\"' EXIT"]),
         0..=3,
